@@ -21,7 +21,7 @@ import math
 from ..interp import Obj
 from ..sir import AnalysisBroken
 from .. import model
-from . import sinks
+from . import sinks, mstpipe
 from .C01 import check_pflood, MST
 
 UNITS = ["raster_queen", "profile", "trimesh"]
@@ -132,6 +132,10 @@ def run(db, chk):
              "assignments from 3 (4) levels, all base-level sets, without / with one masked node: every reached "
              "node ends between its minimax spill level and that level plus one increment per node, keeps a "
              "strictly lower unmasked neighbour, and nothing else changes", min_instances=500)
+    chk.rule("C02-F5", "bounded, end to end: mst_sink_resolver's apply() interpreted on every elevation assignment "
+             "(3 levels) of small node graphs, both tree algorithms and both routing methods: no elevation is "
+             "lowered, base levels are unchanged, every other node ends between its minimax spill level and that "
+             "level plus one increment per node", min_instances=300)
     chk.rule("C02-F2", "on tree-shaped neighbourhoods the result equals max(input, successor of "
              "the parent's result)", min_instances=100)
     n_sc = 0
@@ -166,6 +170,7 @@ def run(db, chk):
         # ---- F4: priority flood on every small graph (bounded): minimax level within the margin ----
         if uname == UNITS[0] or chk.tier == "thorough":
             n_sc += minimax_rule(chk, uname, pf)
+            n_sc += mstpipe.run_rule(db, chk, uname, None, "C02-F5")
         for E in (1.0, 0.0, -2.5):
             for ca in sinks.CLASSES:
                 for cb in sinks.CLASSES:
